@@ -250,6 +250,11 @@ func vStrings() *result {
 				res.fail("piece of Split(%q) contains a newline", s)
 			}
 		}
+		// stripQuotes_quoted: removing the quotes of a quoted value leaves the text between them
+		q := "\"" + strings.ReplaceAll(s, "\"", "") + "\""
+		if strings.ReplaceAll(q, "\"", "") != q[1:len(q)-1] {
+			res.fail("ReplaceAll of the quotes of %q", q)
+		}
 		if strings.Contains(s, "*") != (strings.IndexByte(s, '*') >= 0) {
 			res.fail("Contains(%q, *)", s)
 		}
